@@ -156,6 +156,94 @@ example : StreamProc.run {} [.put 1, .charge, .put 2, .put 3, .put 4, .put 5, .p
     .commit 1, .get 2, .hold 2, .commit 2, .get 3, .drop 3, .commit 3, .get 4, .propagate 2, .drop 2, .get 5] = none := by
   decide
 
+
+/-! ### the file input's commit guard (plugin/input/file/provider.go: jobProvider.commit) -/
+
+/-- `jobProvider.commit` for one source: per-stream offsets; `none` is the
+    `Panicf("offset corruption: committing=%d, current=%d …")` branch (`value >= event.Offset`) -/
+def fileCommit (offs : List (Nat × Nat)) (e : Ev) : Option (List (Nat × Nat)) :=
+  let cur := ((offs.find? (·.1 == e.st)).map (·.2)).getD 0
+  if cur ≥ e.off then none else some ((e.st, e.off) :: offs.filter (·.1 != e.st))
+
+def fileCommits : List (Nat × Nat) → List Ev → Option (List (Nat × Nat))
+  | offs, [] => some offs
+  | offs, e :: es => (fileCommit offs e).bind (fileCommits · es)
+
+/-- replacing the entry of key `k` does not change what is found under another key -/
+theorem find_other (offs : List (Nat × Nat)) (k v k' : Nat) (h : k ≠ k') :
+    ((k, v) :: offs.filter (·.1 != k)).find? (·.1 == k') = offs.find? (·.1 == k') := by
+  have hk : (k == k') = false := by simp [h]
+  simp only [List.find?, hk]
+  induction offs with
+  | nil => simp
+  | cons o os ih =>
+    simp only [List.filter]
+    by_cases ho : o.1 = k
+    · have h1 : (o.1 != k) = false := by simp [ho]
+      have h2 : (o.1 == k') = false := by simp [ho, h]
+      simp only [h1, List.find?, h2]; exact ih
+    · have h1 : (o.1 != k) = true := by simp [ho]
+      simp only [h1, List.find?]
+      by_cases hox : o.1 = k'
+      · simp [hox]
+      · have h2 : (o.1 == k') = false := by simp [hox]
+        simp only [h2]; exact ih
+
+/-- the stored offset of a stream is the offset of the last committed event of that stream -/
+theorem fileCommits_never_panics (cs : List Ev) (offs : List (Nat × Nat))
+    (hpos : ∀ e ∈ cs, 0 < e.off)
+    (hfirst : ∀ e ∈ cs, ((offs.find? (·.1 == e.st)).map (·.2)).getD 0 < e.off)
+    (hmono : ∀ pre a mid b post, cs = pre ++ a :: (mid ++ b :: post) → a.st = b.st → a.off < b.off) :
+    (fileCommits offs cs).isSome = true := by
+  induction cs generalizing offs with
+  | nil => simp [fileCommits]
+  | cons e es ih =>
+    have h1 := hfirst e (by simp)
+    have hc : fileCommit offs e = some ((e.st, e.off) :: offs.filter (·.1 != e.st)) := by
+      simp only [fileCommit]
+      split
+      · omega
+      · rfl
+    simp only [fileCommits, hc, Option.bind_some]
+    apply ih
+    · intro x hx; exact hpos x (List.mem_cons_of_mem _ hx)
+    · intro x hx
+      by_cases hst : x.st = e.st
+      · -- same stream: the stored offset is e.off, and e precedes x
+        obtain ⟨mid, post, hsp⟩ := List.append_of_mem hx
+        have := hmono [] e mid x post (by simp [hsp]) hst.symm
+        simp [List.find?, hst, this]
+      · -- other stream: its entry is untouched
+        have h2 := hfirst x (List.mem_cons_of_mem _ hx)
+        have hf := find_other offs e.st e.off x.st (fun h => hst h.symm)
+        rw [hf]; exact h2
+    · intro pre a mid b post hsp hst
+      exact hmono (e :: pre) a mid b post (by simp [hsp]) hst
+
+/-- **the file input never hits "offset corruption"** on the commit notifications of the composed
+    system (no dead queue), provided the input hands out positive offsets that grow along each
+    stream — what the file reader does (C06: the offset just after each line's newline). -/
+theorem file_commit_never_panics (ops : List Sys.Op) (s : Sys.State)
+    (hr : Sys.run (Sys.init false) ops = some s)
+    (hpos : ∀ e ∈ s.core.accepted, 0 < e.off)
+    (hoff : ∀ a ∈ s.core.accepted, ∀ b ∈ s.core.accepted, a.st = b.st → a.seq < b.seq → a.off < b.off) :
+    (fileCommits [] s.core.commits).isSome = true := by
+  have inv := (Sys.sinv_run Sys.sinv_init hr).cinv
+  have hsub : ∀ x ∈ s.core.commits, x ∈ s.core.accepted := by
+    intro x hx
+    obtain ⟨rest, hrest⟩ := commits_prefix_added inv
+    exact inv.addedAcc x (by rw [hrest]; exact List.mem_append_left _ hx)
+  apply fileCommits_never_panics
+  · intro e he; exact hpos e (hsub e he)
+  · intro e he; simpa using hpos e (hsub e he)
+  · intro pre a mid b post hc hst
+    have hlt := in_order_of_cinv inv pre a mid b post hc hst
+    exact hoff a (hsub a (by rw [hc]; simp)) b (hsub b (by rw [hc]; simp)) hst hlt
+
+example : fileCommits [] [⟨0, 1, 10⟩, ⟨1, 1, 5⟩, ⟨0, 2, 20⟩] = some [(0, 20), (1, 5)] := by decide
+/-- the dead-queue order 30, 40, 10, 20 of the known finding does panic -/
+example : fileCommits [] [⟨0, 3, 30⟩, ⟨0, 4, 40⟩, ⟨0, 1, 10⟩, ⟨0, 2, 20⟩] = none := by decide
+
 /-! ### dead queue: the order clause is false of the unchanged code -/
 def dqWitness : List Op :=
   [.accept ⟨0, 1, 10⟩, .accept ⟨0, 2, 20⟩, .add false ⟨0, 1, 10⟩, .add false ⟨0, 2, 20⟩, .sealB false 0,
